@@ -46,7 +46,8 @@ def one(out, w):
                     return name, "EDIT DOES NOT APPLY"
                 open(p, "w").write(t.replace(ed["old"], ed["new"]))
         env = dict(os.environ, VERIF_REPO=scratch, VERIF_NO_CACHE="1", VERIF_CACHE_DIR=cache)
-        code = "import shutil,sys;from shredlint import extract as E;d,i=E.extract('default');f=E.fact_files(d,crate='shred')[0];shutil.copyfile(f,sys.argv[1])"
+        code = ("import shutil,sys;from shredlint import extract as E;d,i=E.extract('default');f=E.fact_files(d,crate='shred')[0];shutil.copyfile(f,sys.argv[1]);"
+                "g=E.fact_files(d,crate='shred_derive');g and shutil.copyfile(g[0],sys.argv[1][:-5]+'.derive.json')")
         p = subprocess.run([sys.executable, "-B", "-c", code, dest], cwd=VERIF, env=env, stdout=subprocess.PIPE, stderr=subprocess.STDOUT)
         return name, "ok" if p.returncode == 0 else "FAILED " + p.stdout.decode()[-300:]
     finally:
